@@ -111,6 +111,8 @@ OPT = {"file-ok": lambda f: ["--file", f["ok"]], "file-missing": lambda f: ["--f
 CMD = {"none": [], "nosuch": ["frobnicate"], "cat": ["cat"], "info-all": ["info", "#.*"], "info-noarg": ["info"], "info-badpat": ["info", "a.b.c.d"],
        "free": ["free"], "type-file": ["type", "A"], "type-noarg": ["type"], "type-missing": ["type", "NOSUCH"], "sector-map": ["sector-map"],
        "dump-sector-ok": ["dump-sector", "0", "1", "1"], "dump-sector-args": ["dump-sector", "0", "x", "1"], "dump-sector-range": ["dump-sector", "0", "99999", "-1"],
+       "dump-sector-overflow": ["dump-sector", "0", "99999999999999999999", "0"], "dump-sector-negoverflow": ["dump-sector", "0", "1", "-99999999999999999999"],
+       "cat-overflow": ["cat", "99999999999999999999"], "free-overflow": ["free", "340282366920938463463374607431768211456"],
        "cat-junk": ["cat", "0junk"], "free-junk": ["free", "zz"], "extract-noarg": ["extract-files"], "extract-emptydest": ["extract-files", ""],
        "extract-nodir": ["extract-files", "/nonexistent/dir"], "help-cmd": ["help", "cat"], "help-nosuch": ["help", "frobnicate"], "cat-nodrive": ["cat", "7"]}
 
@@ -294,7 +296,8 @@ def run(chk, tier, seed):
         blank = discs.build("DFS", [], scratch, "blank", nsectors=800, salt=4, title=b"BLANK")
         wat = discs.build("WDFS", [mkdisc.entry("W", length=300, start=9)], scratch, "wat0", nsectors=400, salt=4, split=0, title=b"WAT")
         opu = discs.build("OPUS", [mkdisc.entry("A", length=300, start=9)], scratch, "opu", salt=5, opus_letter="B")
-        pool = [okimg.path, blank.path, wat.path, opu.path]
+        wat2 = discs.build("WDFS", [mkdisc.entry("V", length=300, start=9), mkdisc.entry("U", length=30, start=5)], scratch, "wat2", nsectors=400, salt=4, split=2, title=b"WAT2")
+        pool = [okimg.path, blank.path, wat.path, opu.path, wat2.path]
         mjobs = []
         for a in pool:
             for b in pool:
